@@ -80,7 +80,7 @@ func main() {
 		r.Floors["distinct"] = 10
 		r.Finish()
 	}
-	edit := func(s string) string { return strings.Replace(s, "waitTxMs=1000\n", "waitTxMs=10\n", 1) }
+	edit := func(s string) string { return strings.Replace(s, "waitTxMs=100000000\n", "waitTxMs=10\n", 1) }
 	env, err := treex.NewEnv(edit)
 	if err != nil {
 		fmt.Println("HARNESS-ERROR", err)
